@@ -246,6 +246,16 @@ class GroupProject(Contract):
         return [("one-element-per-person", B._z(r.n) == w.N), ("value-of-the-person's-group", z3.Implies(rng, B.zreal(r.elem(i)) == want))]
 
 
+def _project_probes(self, case):
+    return [{"callee": self.name, "script": NATIVE, "op": "project", "role": case == "role", "count": cnt, "eid": eid,
+             "inrole": [True, False, True, True, False, True][:len(eid)]}
+            for cnt, eid in ((3, [1, 2, 0]), (3, [1, 0, 0, 2, 0, 1]), (2, [1, 0]), (4, [3, 3, 0, 1]))]
+
+
+GroupProject.probes = _project_probes
+GroupProject.judge_native = lambda self, I, case, call, nat: judge(nat)
+
+
 class MembersPosition(Contract):
     name = f"{GPOP}.members_position"
     loop_heads = {0: 'for k in range(nb_persons)'}
